@@ -24,7 +24,8 @@ def confirm(prop, i, jobs):
     rec = {"property": prop, "index": i, "repo_head": subprocess.run("git -C /repo rev-parse --short HEAD", shell=True, capture_output=True, text=True).stdout.strip()}
     try:
         os.makedirs(os.path.join(wt, "OUT"), exist_ok=True)
-        subprocess.run(f"cp {demo} {wt}/OUT/", shell=True)
+        # (demos written by the sub-agents name their own scratch worktree; point them at this one)
+        open(os.path.join(wt, "OUT", f"demo{i}.py"), "w").write(open(demo).read().replace(f"/tmp/wt_{prop}", wt))
         rc, o = sh(f"{PY} OUT/demo{i}.py", wt, 1800)
         rec["demo_clean_rc"] = rc
         rc, o = sh(f"git apply {patch}", wt)
